@@ -69,7 +69,7 @@ func genFrame(r *hx.Rand, max, _ int) codec.Frame {
 	}
 	for len(f) < n {
 		sz := h26x.Size(r, max, 1, 2, 1, 1)
-		if total+sz > 40000 && len(f) > 0 {
+		if total+sz > 14000 && len(f) > 0 {
 			sz = r.Range(1, 8)
 		}
 		total += sz
@@ -213,6 +213,15 @@ func main() {
 		}, maxNALUs+2, 2*maxAU+4096)
 		// endless 1000-byte middle fragments: cut at MaxAccessUnitSize
 		Format.EndlessFragments(ctx, "endless-1000-byte-fua-fragments", 8000, func(i int, seq uint16) *rtp.Packet {
+			pl := make([]byte, 1000)
+			pl[0], pl[1] = 0x7c, 0x05
+			if i == 0 {
+				pl[1] = 0x85
+			}
+			return &rtp.Packet{Header: rtp.Header{Version: 2, SequenceNumber: seq}, Payload: pl}
+		}, maxAU/998+maxNALUs+4, maxAU+4096)
+		// the same, across the cap: cut at MaxAccessUnitSize
+		Format.EndlessFragments(ctx, "endless-1000-byte-fua-fragments-across-cap", 12000, func(i int, seq uint16) *rtp.Packet {
 			pl := make([]byte, 1000)
 			pl[0], pl[1] = 0x7c, 0x05
 			if i == 0 {
